@@ -30,6 +30,7 @@ CONSTANTS
     Txns,         \* committing transactions
     Keys,
     Wr,           \* [Txns -> SUBSET Keys \ {{}}]: write set of each transaction
+    Dup,          \* [Txns -> Nat]: extra entries of the batch that repeat a key (savepoint history)
     Slots,        \* queue capacity (MAX_CONCURRENT_COMMITS); permits = Slots - 1
     GcInterval,   \* GC_INTERVAL
     MaxFaults,    \* how many injected log / apply failures a behaviour may contain
@@ -59,7 +60,7 @@ VARIABLES
 vars == <<pc, start, seq, res, compl, flag, visible, logSeq, oracle, prev, keptSince, sinceGc, live,
           queue, dq, permits, memt, faults, shutdown>>
 
-Cnt(t) == Cardinality(Wr[t])
+Cnt(t) == Cardinality(Wr[t]) + Dup[t]
 Last(t) == seq[t] + Cnt(t) - 1
 Max(a, b) == IF a >= b THEN a ELSE b
 Min(a, b) == IF a <= b THEN a ELSE b
